@@ -213,6 +213,10 @@ func TestVerifC17(t *testing.T) {
 				if len(times) > 3000 && !hot { // no virtual time passes between attempts: a hot loop; stop it
 					hot = true
 					cancel()
+					// (a loop that is not the request's own - an establisher - cannot be stopped and keeps virtual time from
+					// advancing: the scenario may never end; the verdict is left for the stall guard)
+					verifsim.SetStallVerdict("hot-loop:"+s.name, fmt.Sprintf("%s: more than 3000 attempts reached the cluster within %v of virtual time (first gaps %v us): retries do not back off",
+						s.name, time.Duration(times[len(times)-1]-times[0])*time.Microsecond, gaps(times, 8)))
 				}
 			}
 			s.setup(cl, mark)
